@@ -389,3 +389,98 @@ func TestC03Registrations(t *testing.T) {
 		}
 	})
 }
+
+// TestC03CallbacksAcrossClose: requests that were accepted while the connection was open
+// and are carried out after an earlier request has closed it are still carried out exactly
+// once - for Wake and CloseWithCallback that means: the callback is invoked once (the
+// request itself is a no-op on a closed connection).
+func TestC03CallbacksAcrossClose(t *testing.T) {
+	st := vstat.New("C03.engine_callbacks_across_close")
+	defer st.Flush()
+	rapid.Check(t, func(t *rapid.T) {
+		cfg := fx.DrawCfg(t, fx.DrawOpt{MaxLoops: 2})
+		cfg.RcvBuf, cfg.SndBuf, cfg.Ticker = 0, 0, false
+		nc := rapid.IntRange(1, 3).Draw(t, "conns")
+		var scripts [][]string
+		for i := 0; i < nc; i++ {
+			scripts = append(scripts, rapid.SliceOfN(rapid.SampledFrom([]string{"closecb", "closecb", "wake", "wake", "close", "asyncwrite"}), 2, 6).Draw(t, "script"))
+		}
+		e, err := fx.Start(cfg, fx.EngineHooks{})
+		if err != nil {
+			t.Fatalf("VERIF-INFRA %v", err)
+		}
+		defer func() { _ = e.Stop() }()
+		type res struct {
+			issued, done int32
+			kind         string
+		}
+		var all []*res
+		var wg sync.WaitGroup
+		var mu sync.Mutex
+		for i := 0; i < nc; i++ {
+			c := &bconn{id: i}
+			p, gc, err := e.Connect(c)
+			if err != nil {
+				t.Fatalf("VERIF-INFRA %v", err)
+			}
+			defer p.Close()
+			if gc == nil {
+				gc = c.gc
+			}
+			wg.Add(1)
+			go func(gc gnet.Conn, script []string) {
+				defer wg.Done()
+				for _, k := range script {
+					r := &res{kind: k}
+					cb := func(gnet.Conn, error) error { atomic.AddInt32(&r.done, 1); return nil }
+					var err error
+					switch k {
+					case "closecb":
+						err = gc.CloseWithCallback(cb)
+					case "wake":
+						err = gc.Wake(cb)
+					case "asyncwrite":
+						err = gc.AsyncWrite([]byte("x"), cb)
+					default:
+						err = gc.Close()
+						atomic.StoreInt32(&r.done, 1)
+					}
+					if err == nil {
+						atomic.StoreInt32(&r.issued, 1)
+						mu.Lock()
+						all = append(all, r)
+						mu.Unlock()
+					}
+				}
+			}(gc, scripts[i])
+		}
+		wg.Wait()
+		dl := time.Now().Add(stall)
+		settled := func() bool {
+			mu.Lock()
+			defer mu.Unlock()
+			for _, r := range all {
+				if atomic.LoadInt32(&r.done) < 1 {
+					return false
+				}
+			}
+			return true
+		}
+		for !settled() && time.Now().Before(dl) {
+			time.Sleep(200 * time.Microsecond)
+		}
+		time.Sleep(2 * time.Millisecond)
+		st.Eval()
+		st.NonTrivial(vstat.Hash(cfg.String(), fmt.Sprint(scripts)))
+		if st.WantSample(true) {
+			st.Sample(true, fmt.Sprintf("%s scripts=%v", cfg, scripts))
+		}
+		mu.Lock()
+		defer mu.Unlock()
+		for _, r := range all {
+			if n := atomic.LoadInt32(&r.done); n != 1 {
+				t.Fatalf("VERIF-KEY:async-callback-count a %s request was accepted without error and its callback ran %d times (within %v on an idle engine)\ncfg: %s scripts=%v", r.kind, n, stall, cfg, scripts)
+			}
+		}
+	})
+}
